@@ -3,6 +3,7 @@ context are registered with the real library (which rewrites their source) and c
 reference in which recurse / call_next are ordinary callables of the documented meaning: result, exception,
 order and multiplicity of side effects, line numbers in tracebacks, defaults, closures, generators."""
 
+import itertools
 import linecache
 import random
 import sys
@@ -169,6 +170,11 @@ def build(rng, lines, used, closure, kwdefault):
     _uid[0] += 1
     pad = rng.randint(0, 4)
     hdr_params = "x: list, y: int = 3" + (", *, tag: object = 'dflt', w: object = 'dw'" if kwdefault else "")
+    # now and then a default that holds a code object of its own (a lambda, a generator expression): it is compiled
+    # ahead of the function, the rewriter must still pick the function's own code
+    if _uid[0] % 5 == 0:
+        extra = "post: object = (lambda r: ('post', r))" if _uid[0] % 2 else "gx: object = tuple(q * 2 for q in (1, 2))"
+        hdr_params = hdr_params + (", " + extra if kwdefault else ", *, " + extra)
 
     def src_for(name, rec, cn, selfname):
         body = [l.replace("recurse(", rec + "(").replace("call_next(", cn + "(").replace("F(", selfname + "(") for l in lines]
@@ -254,11 +260,25 @@ def outcome(fn, args, kwargs, log, fname):
     del log[:]
     for e in log_reset:
         e[0] = 0
+    class _Stuck(BaseException):
+        pass
+
+    def _alarm(signum, frame):
+        raise _Stuck()
+
+    import signal
+
+    old_h = signal.signal(signal.SIGALRM, _alarm)
+    signal.setitimer(signal.ITIMER_REAL, 10.0)
     try:
         r = fn(*args, **kwargs)
         if hasattr(r, "__next__"):
-            r = list(r)
+            r = list(itertools.islice(r, 10000))
         return {"result": repr(r), "log": list(log)}
+    except _Stuck:
+        # a call that does not come back within 10 s (the generated bodies are bounded by ENTERED): an outcome like any
+        # other, to be compared with the reference
+        return {"exc": "DoesNotReturn", "log": []}
     except RecursionError:
         return {"exc": "RecursionError", "log": []}
     except BaseException as e:  # noqa
@@ -267,6 +287,9 @@ def outcome(fn, args, kwargs, log, fname):
         if isinstance(e, TypeError) and ("No method" in msg or "Ambiguous" in msg):
             msg = msg.split(" in ")[0] + " " + msg.split("argument types")[-1][:60]
         return {"exc": type(e).__name__, "msg": msg[:120], "lines": lines, "log": list(log)}
+    finally:
+        signal.setitimer(signal.ITIMER_REAL, 0)
+        signal.signal(signal.SIGALRM, old_h)
 
 
 def worker(payload):
